@@ -6,7 +6,7 @@
                     its shifted copy is `InlineExact`;
     * `xl_every`    … under ONE table: every attribute-rendering inline node starts at a byte of the
                     document that is not a line feed;
-    * `joinNode_everyK`, `spliceList_everyK`, `spPure_everyK`   a claim about (kind, range) that holds of
+    * `joinNode_everyKR`, `spliceList_everyKR`, `spPure_everyKR`   a claim about (kind, range) that holds of
                     every value that renders no attributes survives the three passes.
 -/
 import MdIt.Lemmas.C10SourceposDoc
@@ -164,7 +164,7 @@ include hnr
 
 theorem q_of_isText {n : Node} (h : n.isText = true) : Q n.kind n.range := hnr _ _ (kind_of_isText h)
 
-theorem joinNode_everyK_aux (k : Nat) : ∀ n : Node, nsize n ≤ k →
+theorem joinNode_everyKR_aux (k : Nat) : ∀ n : Node, nsize n ≤ k →
     Every (fun n => Q n.kind n.range) n → Every (fun n => Q n.kind n.range) (joinNode n) := by
   induction k with
   | zero => intro n hn; rw [nsize_eq] at hn; omega
@@ -188,21 +188,21 @@ theorem joinNode_everyK_aux (k : Nat) : ∀ n : Node, nsize n ≤ k →
       exact (he.child c hc).child
 
 /-- **the join pass keeps a claim that every non-rendering value satisfies** -/
-theorem joinNode_everyK {n : Node} (he : Every (fun n => Q n.kind n.range) n) :
+theorem joinNode_everyKR {n : Node} (he : Every (fun n => Q n.kind n.range) n) :
     Every (fun n => Q n.kind n.range) (joinNode n) :=
-  joinNode_everyK_aux hnr _ n (Nat.le_refl _) he
+  joinNode_everyKR_aux hnr _ n (Nat.le_refl _) he
 
 theorem joined_everyK (cfg : DocCfg) {n : Node} (he : Every (fun n => Q n.kind n.range) n) :
     Every (fun n => Q n.kind n.range) (joined cfg n) := by
   unfold joined
   split
-  · exact joinNode_everyK hnr he
+  · exact joinNode_everyKR hnr he
   · exact he
 
 end passes
 
 mutual
-theorem spPure_everyK {Q : Kind → Option (Nat × Nat) → Prop} (src : List Char) :
+theorem spPure_everyKR {Q : Kind → Option (Nat × Nat) → Prop} (src : List Char) :
     ∀ t : Node, Every (fun n => Q n.kind n.range) t → Every (fun n => Q n.kind n.range) (spPure src t)
   | ⟨k, r, a, cs⟩, he => by
     simp only [spPure]
@@ -215,7 +215,7 @@ theorem spPureList_everyK {Q : Kind → Option (Nat × Nat) → Prop} (src : Lis
     intro x hx
     simp only [spPureList, List.mem_cons] at hx
     rcases hx with rfl | hx
-    · exact spPure_everyK src c (he c (by simp))
+    · exact spPure_everyKR src c (he c (by simp))
     · exact spPureList_everyK src r (fun y hy => he y (List.mem_cons_of_mem _ hy)) x hx
 end
 
@@ -235,7 +235,7 @@ def BOkL (Pb : Block.Kind → Option (Nat × Nat) → Prop) (Pi : List Char → 
 end
 
 mutual
-theorem spliceNode_everyK {icfg : Inline.Cfg} {Q : Kind → Option (Nat × Nat) → Prop}
+theorem spliceNode_everyKR {icfg : Inline.Cfg} {Q : Kind → Option (Nat × Nat) → Prop}
     {Pb : Block.Kind → Option (Nat × Nat) → Prop} {Pi : List Char → Srcmap → Prop}
     (hb : ∀ k r, Pb k r → Q (.blk k) r)
     (hi : ∀ ct m ns, Pi ct m → Inline.parseInline icfg ct m = .ok ns →
@@ -249,8 +249,8 @@ theorem spliceNode_everyK {icfg : Inline.Cfg} {Q : Kind → Option (Nat × Nat) 
     · cases h
     · rename_i cs' hcs
       cases h
-      exact .mk _ hq (spliceList_everyK hb hi cs cs' hok hcs)
-theorem spliceList_everyK {icfg : Inline.Cfg} {Q : Kind → Option (Nat × Nat) → Prop}
+      exact .mk _ hq (spliceList_everyKR hb hi cs cs' hok hcs)
+theorem spliceList_everyKR {icfg : Inline.Cfg} {Q : Kind → Option (Nat × Nat) → Prop}
     {Pb : Block.Kind → Option (Nat × Nat) → Prop} {Pi : List Char → Srcmap → Prop}
     (hb : ∀ k r, Pb k r → Q (.blk k) r)
     (hi : ∀ ct m ns, Pi ct m → Inline.parseInline icfg ct m = .ok ns →
@@ -278,7 +278,7 @@ theorem spliceList_everyK {icfg : Inline.Cfg} {Q : Kind → Option (Nat × Nat) 
           intro n hn
           rcases List.mem_append.mp hn with hn | hn
           · exact hi ct m ns hc hns n hn
-          · exact spliceList_everyK hb hi rest rest' hrest hr n hn
+          · exact spliceList_everyKR hb hi rest rest' hrest hr n hn
     · rename_i hne
       have hc' : Pb c.kind c.range ∧ BOk Pb Pi c := by
         revert hc
@@ -295,8 +295,8 @@ theorem spliceList_everyK {icfg : Inline.Cfg} {Q : Kind → Option (Nat × Nat) 
           cases h
           intro n hn
           rcases List.mem_cons.mp hn with rfl | hn
-          · exact spliceNode_everyK hb hi c _ (hb _ _ hc'.1) hc'.2 hcs
-          · exact spliceList_everyK hb hi rest rest' hrest hr n hn
+          · exact spliceNode_everyKR hb hi c _ (hb _ _ hc'.1) hc'.2 hcs
+          · exact spliceList_everyKR hb hi rest rest' hrest hr n hn
 end
 
 /-! ## F: from the claims to the Boolean checks of `final_stage` -/
